@@ -364,10 +364,13 @@ class Reshaped:
                         i += dim
                 flat = flat * dim + i
             return self.base[flat]
-        return ReshapedSlice(self, idx)
+        rs = ReshapedSlice(self, idx)
+        if rs.rank() == 1:
+            return rs.to_array()          # numpy: a 1-D view is an ndarray
+        return rs
 
 
-class ReshapedSlice:
+class ReshapedSlice(ndarray):
     """partial index with full slices ':' only; supports [k] on the remaining axis,
     len(), iteration by the loop rules through SymArr/NArr conversion"""
 
@@ -396,7 +399,8 @@ class ReshapedSlice:
             return self.at(k)
         full = list(self.idx)
         full[self.free[0]] = k
-        return ReshapedSlice(self.rs, tuple(full))
+        rs = ReshapedSlice(self.rs, tuple(full))
+        return rs.to_array() if rs.rank() == 1 else rs
 
     def length(self):
         return self.rs.shape[self.free[0]]
